@@ -11,7 +11,7 @@ AlphaMirror == Both({"empty", "field", "const", "marker"}) \cup Plain({"blank", 
                  "sealed", "extent", "print", "offq"})
 \* error-location focus
 AlphaErrors == Both({"empty", "badconst"}) \cup Plain({"blank", "field", "const", "union", "offq", "sealed",
-                 "extent", "assertfalse", "undef", "syntax", "print", "marker", "mlprint", "esprint"})
+                 "extent", "assertfalse", "undef", "syntax", "print", "marker", "mlprint", "esprint", "bprint", "sprint"})
 \* everything
 AlphaAll == Both({"empty", "field", "const", "pad", "marker", "badconst", "sealed", "print"}) \cup
             Plain({"blank", "union", "deprecated", "extent", "assert", "offq", "assertfalse", "undef", "syntax", "mlprint", "esprint"})
